@@ -46,6 +46,10 @@ where
         | _ => throw "bad node prop")
       pure (.node name (← m.getBool?) (← v.getInt?) ps)
     | [Json.str "p", Json.str k] => pure (.prop (← parseProp k))
+    | [Json.str "i", src, nd] =>
+      let nd ← (match nd with | Json.null => pure none | x => do pure (some (← x.getStr?)))
+      pure (.imp (← getStrList src) nd)
+    | [Json.str "u", Json.str name, b] => pure (.unit name (← b.getBool?))
     | [Json.str "g", Json.str name, e, body] => pure (.group name (← e.getNat?) (← parseItems body))
     | [Json.str "b", pfx, cls, els, ee] =>
       let pfx ← getStrList pfx
@@ -84,6 +88,10 @@ def lineText (l : Line) : String :=
   | .node true v => s!"{dotted l.name} = {v}"
   | .group => dotted l.name
   | .prop p => propText p
+  | .imp none => "{?" ++ dotted l.name ++ ".*}"
+  | .imp (some n) => "{?" ++ dotted (l.name ++ [n]) ++ "}"
+  | .unit false => "$unit " ++ dotted l.name ++ " = 2 m"
+  | .unit true => "$unit " ++ dotted l.name ++ " = 2 zzz"
   | .case true => clausePfx l.name ++ "@case true"
   | .case false => clausePfx l.name ++ "@case false"
   | .els => clausePfx l.name ++ "@else"
@@ -101,6 +109,10 @@ def lineSpecs (ls : List Line) : Json :=
       | .group => ("g", 0)
       | .prop .constant => ("p:const", 0)
       | .prop (.tags t) => ("p:tags:" ++ t, 0)
+      | .imp none => ("i*", 0)
+      | .imp (some n) => ("i:" ++ n, 0)
+      | .unit false => ("u0", 0)
+      | .unit true => ("u1", 0)
       | .case true => ("c1", 0)
       | .case false => ("c0", 0)
       | .els => ("else", 0)
@@ -119,6 +131,8 @@ def dataJson (r : Except Unit (List Eff)) : Json :=
 def effJson : Eff → Json
   | .node name m v => Json.arr #[jstr (dotted name), Json.bool m, jint v]
   | .prop p => Json.arr #[jstr (propText p)]
+  | .imp pre src nd => Json.arr #[jstr "import", jstr (dotted pre), jstr (dotted src), jopt jstr nd]
+  | .fail => Json.arr #[jstr "fail"]
 
 def effsJson (r : Except Unit (List Eff)) : Json :=
   match r with
@@ -126,7 +140,7 @@ def effsJson (r : Except Unit (List Eff)) : Json :=
   | .ok effs => jarr effJson effs
 
 def stateJson (ls : List Line) : Json :=
-  match run St.init ls with
+  match parseFrom St.init ls with
   | .error _ => jstr "err"
   | .ok (s, _) => Json.mkObj [("open", jnat s.state.length), ("num_cases", jnat s.numCases),
       ("num_branches", jnat s.numBranches),
@@ -155,7 +169,11 @@ def parseLine (j : Json) : Except String Line := do
     | "c0" => pure ⟨i, name, .case false⟩
     | "else" => pure ⟨i, name, .els⟩
     | "end" => pure ⟨i, name, .fin⟩
+    | "i*" => pure ⟨i, name, .imp none⟩
+    | "u0" => pure ⟨i, name, .unit false⟩
+    | "u1" => pure ⟨i, name, .unit true⟩
     | _ =>
+      if k.startsWith "i:" then pure ⟨i, name, .imp (some ((k.drop 2).toString))⟩ else
       if k.startsWith "p:" then pure ⟨i, [], .prop (← parseProp ((k.drop 2).toString))⟩
       else throw s!"bad line kind {k}"
   | _ => throw s!"bad line {j}"
@@ -166,11 +184,75 @@ def lines (j : Json) : Except String Json := do
     ("model_effs", effsJson (parse ls)), ("state", stateJson ls),
     ("misplaced", Json.bool (misplaced ls))])
 
+/-! Histories: a base code, then further codes each parsed on the environment of the base or of
+    an earlier step (`from`: 0 = base, i = result of step i).  An environment = machine state
+    left by the parse (cases closed, fix 445f434) + the node records.  Model: `parseFrom` on a
+    copy of that state; specification: `sem` of the step's own tree on top of the records (for a
+    raw line sequence only the verdict "misplaced ⇒ refused"). -/
+
+def recsJson (d : List NodeRec) : Json :=
+  jarr (fun (r : NodeRec) =>
+    Json.arr #[jstr (dotted r.name), jint r.v, Json.bool r.constant, jarr jstr r.tags]) d
+
+def resJson : Option (List NodeRec) → Json
+  | none => jstr "err"
+  | some d => recsJson d
+
+def modelStep (env : St × List NodeRec) (ls : List Line) : Option (St × List NodeRec) :=
+  match parseFrom env.1 ls with
+  | .error _ => none
+  | .ok (s', effs) =>
+    match applyEffs env.2 effs with
+    | .error _ => none
+    | .ok d => some (s', d)
+
+def specStep (recs : List NodeRec) (p : Items) : Option (List NodeRec) :=
+  match applyEffs recs (p.sem []) with
+  | .error _ => none
+  | .ok d => some d
+
+def histSteps (menvs : List (Option (St × List NodeRec))) (senvs : List (Option (List NodeRec))) :
+    List Json → Except String (List Json)
+  | [] => pure []
+  | st :: rest => do
+    let from_ ← (← field st "from").getNat?
+    let menv := (menvs[from_]?).join
+    let senv := (senvs[from_]?).join
+    match st.getObjVal? "items" with
+    | .ok its =>
+      let p ← parseItems its
+      let ls := p.render 0
+      let m := menv.bind (fun e => modelStep e ls)
+      let sp := senv.bind (fun r => specStep r p)
+      let out := Json.mkObj [("lines", linesJson ls), ("model", if menv.isNone then jstr "skip" else resJson (m.map (·.2))),
+        ("spec", if senv.isNone then jstr "skip" else resJson sp),
+        ("num_cases", jopt (fun (e : St × List NodeRec) => jnat e.1.numCases) m)]
+      let r ← histSteps (menvs ++ [m]) (senvs ++ [sp]) rest
+      pure (out :: r)
+    | .error _ =>
+      let ls ← (← getList (← field st "lines")).mapM parseLine
+      let m := menv.bind (fun e => modelStep e ls)
+      let out := Json.mkObj [("lines", linesJson ls), ("model", if menv.isNone then jstr "skip" else resJson (m.map (·.2))),
+        ("misplaced", Json.bool (misplaced ls)), ("spec", if senv.isNone then jstr "skip" else jstr "none")]
+      let r ← histSteps (menvs ++ [none]) (senvs ++ [none]) rest
+      pure (out :: r)
+
+def hist (j : Json) : Except String Json := do
+  let base ← parseItems (← field j "base")
+  let ls := base.render 0
+  let m := modelStep (St.init, []) ls
+  let sp := specStep [] base
+  let steps ← histSteps [m] [sp] (← getList (← field j "steps"))
+  pure (Json.mkObj [("base", Json.mkObj [("lines", linesJson ls), ("model", resJson (m.map (·.2))), ("spec", resJson sp),
+      ("num_cases", jopt (fun (e : St × List NodeRec) => jnat e.1.numCases) m)]),
+    ("steps", Json.arr steps.toArray)])
+
 def handle (j : Json) : Except String Json := do
   let k ← (← field j "k").getStr?
   match k with
   | "ast" => ast j
   | "lines" => lines j
+  | "hist" => hist j
   | _ => throw s!"C15: unknown kind {k}"
 
 end SciVerif.C15.Drive
